@@ -184,7 +184,7 @@ func didExpect(m *didModel, msg sdk.Msg, strictID bool) (bool, string) {
 		}
 		grantee, _ := sdk.AccAddressFromBech32(x.Grantee)
 		for _, im := range inner {
-			sg := im.GetSigners()
+			sg := refSigners(im)
 			if len(sg) != 1 || !bytes.Equal(sg[0], grantee) {
 				return false, "exec-without-grant"
 			}
@@ -254,6 +254,9 @@ func (e *didEnv) doc(shape string, did string) *didtypes.DIDDocument {
 			didtypes.WithAuthentications([]didtypes.VerificationRelationship{ref(1)}),
 			didtypes.WithServices([]*didtypes.Service{{Id: "svc1", Type: "LinkedDomains", ServiceEndpoint: "https://example.org"}}))
 		d.Contexts = &didtypes.JSONStringOrStrings{didtypes.ContextDIDV1, "https://w3id.org/security/v1"}
+	case "D6": // vm[k1 typed with the deprecated Secp256k1VerificationKey2018] auth[ref k1]
+		d = didtypes.NewDIDDocument(did, didtypes.WithVerificationMethods([]*didtypes.VerificationMethod{e.vm(did, 1, "Secp256k1VerificationKey2018")}),
+			didtypes.WithAuthentications([]didtypes.VerificationRelationship{ref(1)}))
 	case "De": // empty id, dedicated authentication method for k1 whose id names `did`
 		d = didtypes.DIDDocument{Authentications: []didtypes.VerificationRelationship{didtypes.NewVerificationRelationshipDedicated(*e.vm(did, 1, es256k))}}
 	default:
@@ -351,6 +354,22 @@ func didOps(e *didEnv, v didVariant) []explore.Op {
 	}
 	d1, d2 := e.DIDs[0], e.DIDs[1]
 	R1, R2 := e.R1, e.R2
+	// proofs that NAME a listed authentication key but are made with another key (or are junk): must never be accepted,
+	// whatever the type of the named key
+	ops = append(ops,
+		create(d1, d1, "D6", 1, 0, R1), // deprecated-but-valid 2018 key type
+		explore.Op{Name: "Update(d1,D2(d1),names=key1,signedBy=k3,via=R2)", Tx: func(w *world.World, m any) *world.TxSpec {
+			doc := e.doc("D2", d1)
+			return tx(R2, &didtypes.MsgUpdateDIDRequest{Did: d1, Document: doc, VerificationMethodId: e.vmID(d1, 1), Signature: e.sign(doc, seqOf(m, d1), 3), FromAddress: R2.Bech})
+		}},
+		explore.Op{Name: "Deactivate(d1,names=key1,junk-signature,via=R2)", Tx: func(w *world.World, m any) *world.TxSpec {
+			return tx(R2, &didtypes.MsgDeactivateDIDRequest{Did: d1, VerificationMethodId: e.vmID(d1, 1), Signature: []byte{0x30, 0x01, 0x02}, FromAddress: R2.Bech})
+		}},
+		explore.Op{Name: "Create(d2,D6(d2),names=key1,signedBy=k3,via=R2)", Tx: func(w *world.World, m any) *world.TxSpec {
+			doc := e.doc("D6", d2)
+			return tx(R2, &didtypes.MsgCreateDIDRequest{Did: d2, Document: doc, VerificationMethodId: e.vmID(d2, 1), Signature: e.sign(doc, 0, 3), FromAddress: R2.Bech})
+		}},
+	)
 	ops = append(ops,
 		create(d1, d1, "D1", 1, 0, R1),
 		create(d1, d1, "D2", 2, 0, R1),
@@ -416,6 +435,18 @@ func didOps(e *didEnv, v didVariant) []explore.Op {
 		// empty-id document whose did field is d1: the document handed to the chain has Id ""
 	}
 	if v.Mismatch {
+		// a did field that differs from the document id only in letter case (base58 is case-sensitive: another DID)
+		d1c := caseVariant(d1)
+		ops = append(ops,
+			explore.Op{Name: "Create(did=caseVariant(d1),D1(d1),k1,via=R1)", Tx: func(w *world.World, m any) *world.TxSpec {
+				doc := e.doc("D1", d1)
+				return tx(R1, &didtypes.MsgCreateDIDRequest{Did: d1c, Document: doc, VerificationMethodId: e.vmID(d1, 1), Signature: e.sign(doc, 0, 1), FromAddress: R1.Bech})
+			}},
+			explore.Op{Name: "Update(d1,D1(caseVariant(d1)),k1,via=R1)", Tx: func(w *world.World, m any) *world.TxSpec {
+				doc := e.doc("D1", d1c)
+				return tx(R1, &didtypes.MsgUpdateDIDRequest{Did: d1, Document: doc, VerificationMethodId: e.vmID(d1, 1), Signature: e.sign(doc, seqOf(m, d1), 1), FromAddress: R1.Bech})
+			}},
+		)
 		ops = append(ops,
 			create(d2, d1, "D1", 1, 0, R1), // did field d2, document (and proof) about d1
 			create(d1, d2, "D1", 1, 0, R1),
@@ -743,4 +774,27 @@ func C11(t Tier) int {
 	RunGraph(run, sys, bounds, 6)
 	run.Assumptions = append(didAssumptions, "did field, document id and signed payload are chosen independently in the Create/Update/Exec/Replay(did:=other) entries")
 	return run.Finish()
+}
+
+// caseVariant flips the case of the first letter of the method-specific id whose other case is also a base58 character.
+func caseVariant(did string) string {
+	const p = "did:panacea:"
+	b := []byte(did)
+	for i := len(p); i < len(b); i++ {
+		c := b[i]
+		var o byte
+		switch {
+		case c >= 'a' && c <= 'z':
+			o = c - 32
+		case c >= 'A' && c <= 'Z':
+			o = c + 32
+		default:
+			continue
+		}
+		if strings.IndexByte(b58, o) >= 0 {
+			b[i] = o
+			return string(b)
+		}
+	}
+	panic("no case variant")
 }
